@@ -86,7 +86,7 @@ CHECKS["C01"] = {
     "covers": {"all": ["ZZ_C01_FAR:C01.hist.done", "ZZ_C01_FAR:C01.est.done", "ZZ_C01_FAR:C01.mod.done", "ZZ_C01_FAR:C01.del.done",
                        "ZZ_C01_FAR:C01.assoc.ended-session", "ZZ_C01_FAR:C01.reportrsp.done", "ZZ_C01_URR:C01.hist.done", "ZZ_C01_PDR:C01.hist.done", "ZZ_C01_PDRURR:C01.hist.done", "ZZ_C01_PDRURR:C01.del.done"]},
     "bounds": {
-        "quick": "histories of 3 steps after an association, per rule kind (FAR, QER, BAR, URR, PDR): each step one of Association Setup (2 nodes), Establishment (0..2 Create IEs), Modification (one Create/Update/Remove/Query IE), Deletion, Session Report Response (SEID 0 or not); rule ids from {1,2} or unconstrained; one symbolic fault per create/update/query data-plane call",
+        "quick": "histories of 3 steps after an association, per rule kind (FAR, QER, BAR, URR, PDR): each step one of Association Setup (2 nodes; node A from its usual or from another source address), Establishment (0..2 Create IEs), Modification (one Create/Update/Remove/Query IE), Deletion, Session Report Response (SEID 0 or not); rule ids from {1,2} or unconstrained; one symbolic fault per create/update/query data-plane call",
         "thorough": "same with 4 steps",
     },
     "outside": "longer histories; more than 2 addressed sessions; several rule kinds mixed in one history (each kind is a separate shard); remove failures (excluded by the property's fault model)",
@@ -102,7 +102,7 @@ CHECKS["C05"] = {
                        "ZZ_C05_Establish:C05.est.done", "ZZ_C05_Reports:C05.reports.done", "ZZ_C05_Takeover:C05.takeover.done",
                        "ZZ_C05_DeleteReuseReassoc:C05.reuse2.done"]},
     "bounds": {
-        "quick": "frame check around one handler step: bystander session B (rules of all five kinds, one buffered packet, UR-SEQN 1) and acting session A on the same or the other node whose five rule ids and CP SEID are symbolic and may equal B's; steps: Modification with one Create/Update/Remove/Query IE of any kind and symbolic id, Deletion followed by SEID reuse, Association Setup of either node, SEID-0 report response, Establishment, kernel buffer/usage notification, takeover followed by re-association of any of three node ids",
+        "quick": "frame check around one handler step: bystander session B (rules of all five kinds, one buffered packet, UR-SEQN 1) and acting session A on the same or the other node whose five rule ids and CP SEID are symbolic and may equal B's; steps: Modification with one Create/Update/Remove/Query IE of any kind and symbolic id, Deletion followed by SEID reuse (the new session then buffers and pops a packet of its own under A's PDR id), Association Setup of either node, SEID-0 report response, Establishment, kernel buffer/usage notification, takeover followed by re-association of any of three node ids",
         "thorough": "same (the single-step bound is already complete over ids and SEIDs)",
     },
     "outside": "more than two sessions / two nodes; multi-step histories other than takeover+re-association and delete+reuse; B and A sharing both CP SEID and peer (then 'the session the report was sent for' is not determined by the message)",
@@ -130,9 +130,9 @@ CHECKS["C08"] = {
     },
     "covers": {"all": ["ZZ_C08_Heartbeat:C08.hb.done", "ZZ_C08_AssocNoNodeID:C08.assoc-nonode.done", "ZZ_C08_Establish:C08.est.done",
                        "ZZ_C08_Establish:C08.est.early-return", "ZZ_C08_SessionLevel:C08.sess.live", "ZZ_C08_SessionLevel:C08.sess.notfound",
-                       "ZZ_C08_SessionLevel:C08.sess.bad-nodeid", "ZZ_C08_Retransmission:C08.rtx.done"]},
+                       "ZZ_C08_SessionLevel:C08.sess.bad-nodeid", "ZZ_C08_SessionLevel:C08.sess.ended-before", "ZZ_C08_Retransmission:C08.rtx.done"]},
     "bounds": {
-        "quick": "one or two requests per run: Heartbeat + Association Setup (either peer), Association Setup without Node ID, Establishment (known/unknown node, with/without Node ID and CP F-SEID, 0..2 Create PDRs each with/without a UE IPv4 address, symbolic PDR ids and CP SEID) followed by a Modification to the returned UP SEID, Modification/Deletion/Modification-with-undecodable-Node-ID addressed by an unconstrained 64-bit header SEID from either peer; sequence numbers symbolic 24 bit; start instant 2026-10-01",
+        "quick": "one or two requests per run: Heartbeat + Association Setup (either peer), Association Setup without Node ID, Establishment (known/unknown node, with/without Node ID and CP F-SEID, 0..2 Create PDRs each with/without a UE IPv4 address, symbolic PDR ids and CP SEID) followed by a Modification to the returned UP SEID, Modification/Deletion/Modification-with-undecodable-Node-ID addressed by an unconstrained 64-bit header SEID from either peer, with the session alive, already deleted, or dropped by a re-association of its node; sequence numbers symbolic 24 bit; start instant 2026-10-01",
         "thorough": "same with three start instants (NTP second 1, 2026-10-01, last second of NTP era 0)",
     },
     "outside": "FQDN / IPv6 node ids, UE IPv6 addresses, symbolic UE addresses (they pass through text formatting), more than two requests per run",
@@ -191,8 +191,9 @@ CHECKS["C02"] = {
     },
     "covers": {"all": ["ZZ_C02_CreatePDR:C02.pdr.done", "ZZ_C02_UpdatePDR:C02.pdr.done", "ZZ_C02_RemovePDR:C02.rmpdr.done",
                        "ZZ_C02_CreatePDR:C02.fd.uplink", "ZZ_C02_CreatePDR:C02.fd.downlink",
-                       "ZZ_C02_CreateFAR:C02.far.done", "ZZ_C02_UpdateFAR:C02.far.done", "ZZ_C02_RemoveFAR:C02.rmfar.done"]},
-    "bounds": {"quick": "Create/Update/Remove PDR and FAR with every IE payload byte, the SEID and the link index symbolic; PDR: 3 presence profiles (maximal with 2 QER ids, 2 URR ids, 2 SDF filters one of which carries a concrete flow description; minimal; typical) x 6 permutations of 4 child blocks x PDI children plain/reversed; FAR: 3 profiles (Apply Action 1/2 octets, outer header creation GTP-U or UDP, forwarding policy, SMReq flags, BAR id) x 6 permutations",
+                       "ZZ_C02_CreateFAR:C02.far.done", "ZZ_C02_UpdateFAR:C02.far.done", "ZZ_C02_RemoveFAR:C02.rmfar.done",
+                       "ZZ_C02_UpdateFAR:C02.far.update-of-buffering-far"]},
+    "bounds": {"quick": "Create/Update/Remove PDR and FAR with every IE payload byte, the SEID and the link index symbolic; PDR: 3 presence profiles (maximal with 2 QER ids, 2 URR ids, 2 SDF filters one of which carries a concrete flow description; minimal; typical) x 6 permutations of 4 child blocks x PDI children plain/reversed; FAR: 3 profiles (Apply Action 1/2 octets, outer header creation GTP-U or UDP, forwarding policy, SMReq flags, BAR id) x 6 permutations; Update FAR both against a kernel that does not know the FAR and against one where it is buffering with a related PDR and QER (so that the buffer-release lookups run before the update request, which must still address the FAR named in the IE)",
                "thorough": "24 permutations, plus all 64x27 PDR and 9x16 FAR presence subsets in canonical order"},
     "outside": "IPv6 variants, IEs the driver ignores (Network Instance, Application ID, Ethernet filters), IE lengths other than nominal (malformed input is C07), symbolic flow descriptions (C16)",
     "assumptions": FWD_ASSUME,
@@ -263,7 +264,7 @@ CHECKS["C13"] = {
                        "ZZ_C13_Notify:C13.notify.done", "ZZ_C13_Release:C13.release.done", "ZZ_C13_Release:C13.release.forw", "ZZ_C13_Release:C13.release.drop",
                        "ZZ_C13_Release:C13.release.keep", "ZZ_C13_Release:C13.release.not-buffering", "ZZ_C13_Release:C13.release.forw-no-tunnel",
                        "ZZ_C13_Release:C13.release.action-before-farid"]},
-    "bounds": {"quick": "PFCP side: two sessions created with the real LocalNode.NewSess(rSeid, qlen), qlen in {1,2}; qlen+1 buffer notifications each for session 1 or 2 with symbolic PDR id, action word and payload (empty or 2 bytes); then the queues are drained through PopBufPkt; session end (deletion / re-association) and SEID reuse; unknown SEIDs; one concrete run at the production capacity (513 packets into BUFFQ_LEN=512). Data-plane side: BUFFER netlink message with symbolic SEID, PDR, action, 1..4 payload bytes in both attribute orders; Update FAR with symbolic new action (both IE orders) against a simulated kernel whose FAR record has a symbolic current action, 1..2 related PDRs, outer header creation present/absent (symbolic TEID, two peers), 0..2 QERs with symbolic QFIs, with held packets for related PDRs, an unrelated PDR and another session",
+    "bounds": {"quick": "PFCP side: two sessions created with the real LocalNode.NewSess(rSeid, qlen), qlen in {1,2}; qlen+1 buffer notifications each for session 1 or 2 with symbolic PDR id, action word and payload (empty or 2 bytes); then the queues are drained through PopBufPkt; session end (deletion / re-association) and SEID reuse, after which the new session (and a session of another node) buffers a packet of its own under the same or another PDR id and must get back exactly that; unknown SEIDs; one concrete run at the production capacity (513 packets into BUFFQ_LEN=512). Data-plane side: BUFFER netlink message with symbolic SEID, PDR, action, 1..4 payload bytes in both attribute orders; Update FAR with symbolic new action (both IE orders) against a simulated kernel whose FAR record has a symbolic current action, 1..2 related PDRs, outer header creation present/absent (symbolic TEID, two peers), 0..2 QERs with symbolic QFIs, with held packets for related PDRs, an unrelated PDR and another session; the update request itself must address (SEID, FAR id) of the IE and every lookup the session's own SEID",
                "thorough": "same with qlen in {1,2,3}"},
     "outside": "histories interleaving several FAR updates; more than two related PDRs; the integrated run PfcpServer + Gtp5g in one state (the two sides meet at report.Handler, whose two methods are the harness boundary)",
     "assumptions": PFCP_ASSUME + FWD_ASSUME,
@@ -309,9 +310,9 @@ CHECKS["C20"] = {
                        "ZZ_C20_NewDriver:C20.driver.started", "ZZ_C20_NewDriver:C20.driver.rejected", "ZZ_C20_NewDriver:C20.driver.open-failed",
                        "ZZ_C20_ReadConfig:C20.readconfig.accepted", "ZZ_C20_ReadConfig:C20.readconfig.rejected",
                        "ZZ_C20_Document:C20.document.accepted", "ZZ_C20_Document:C20.document.rejected"]},
-    "bounds": {"quick": "version strings [v]X.Y.Z with 1-2 symbolic digits per field (16 templates) through the real Gtp5g.checkVersion / gtp5gnl.GetVersion / DecodeVersion and go-version's LessThan / GreaterThanOrEqual, oracle = the property's window hard-wired; kernel faults; NewDriver over 5 configuration shapes x open success/failure with a symbolic MTU; ReadConfig with a symbolic failure Boolean per stage; configuration documents: a valid reference document with every choice of up to 2 faults among 17 fields (version, pfcp, pfcp.addr, nodeID, retransTimeout, maxRetrans, gtpu, forwarder, ifList, its addr/type/mtu, dnnList, its dnn/cidr, logger, level) x 5 kinds (deleted, emptied, invalid or out of range, mistyped, another valid value) through ReadConfig with the validator model GENERATED from the struct tags of the working tree; oracle = the property's definition of a valid configuration written out by hand (zzSpecAccepts); every explored document (3 486) is replayed natively as a YAML file through the real yaml.v2, govalidator and ReadConfig",
+    "bounds": {"quick": "version strings [v]X.Y.Z with 1-2 symbolic digits per field (16 templates) through the real Gtp5g.checkVersion / gtp5gnl.GetVersion / DecodeVersion and go-version's LessThan / GreaterThanOrEqual, oracle = the property's window hard-wired; kernel faults; NewDriver over 5 configuration shapes x open success/failure with a symbolic MTU; ReadConfig with a symbolic failure Boolean per stage; configuration documents: a valid reference document with every choice of up to 2 faults among 17 fields (version, pfcp, pfcp.addr, nodeID, retransTimeout, maxRetrans, gtpu, forwarder, ifList, its addr/type/mtu, dnnList, its dnn/cidr, logger, level) x 6 kinds (deleted, emptied, invalid or out of range, mistyped, another valid value, near miss = an invalid value that begins or ends like a valid one) through ReadConfig with the validator model GENERATED from the struct tags of the working tree; oracle = the property's definition of a valid configuration written out by hand (zzSpecAccepts); every explored document (4 999) is replayed natively as a YAML file through the real yaml.v2, govalidator and ReadConfig",
                "thorough": "same with up to 3 faults per document (88 486 documents, 20 000 of them replayed natively)"},
-    "outside": "PARTIAL: configuration documents other than fault-perturbations of the one reference document (arbitrary YAML, unknown keys, several list entries, anchors/merges); validator tags outside the modelled vocabulary required/optional/in/host/cidr/ip/ipv4/dns (the check is then inconclusive, exit 2); node ids that are host names needing DNS; pre-release / metadata version suffixes; versions with more than 2 digits per field or other than 3 fields",
+    "outside": "PARTIAL: configuration documents other than fault-perturbations of the one reference document (arbitrary YAML, unknown keys, several list entries, anchors/merges); validator tags outside the modelled vocabulary required/optional/in/host/cidr/ip/ipv4/dns/matches(small regex subset) (the check is then inconclusive, exit 2); node ids that are host names needing DNS; pre-release / metadata version suffixes; versions with more than 2 digits per field or other than 3 fields",
     "assumptions": FWD_ASSUME + ["go-version NewVersion/Compare replaced in the engine by Go-source models (overlays/go-version/version.go = the original file plus the models); the version harness is replayed natively against the real library",
                                  "OpenGtp5g, os.ReadFile, yaml.Unmarshal, govalidator.ValidateStruct replaced in the engine by recording/symbolic models; ZZ_C20_NewDriver and ZZ_C20_ReadConfig have no native replay (the real functions need the kernel module / the file system)",
                                  "ZZ_C20_Document: govalidator.ValidateStruct = model generated by tools/gen_c20.py from the struct tags read with go/types on every run (semantics of govalidator's ValidateStruct/typeCheck/checkRequired/isEmptyValue for the vocabulary above; string validators by a classification table of the 8 candidate strings); yaml.Unmarshal = zzDoc.decode (absent/empty = zero value, mistyped or overflowing scalar = error). Both models are cross-validated on every run: each explored document is rendered to a file and run through the real libraries natively, verdicts and assertion outcomes compared"],
@@ -324,10 +325,12 @@ CHECKS["C07"] = {
         "thorough": [{"pkg": "internal/pfcp", "entries": ["ZZ_C07_*"], "witnesses": 8, "max_paths": 4000000, "budget_s": 3000, "max_concretize": 4096}],
     },
     "covers": {"all": ["ZZ_C07_SweepEmpty:C07.sweep.done", "ZZ_C07_SweepGtp5g:C07.sweep.done", "ZZ_C07_RawAnyEmpty:C07.raw.done", "ZZ_C07_RawAnyGtp5g:C07.raw.done",
-                       "ZZ_C07_RawHandledEmpty:C07.raw.done", "ZZ_C07_RawHandledGtp5g:C07.raw.done"]},
+                       "ZZ_C07_RawHandledEmpty:C07.raw.done", "ZZ_C07_RawHandledGtp5g:C07.raw.done",
+                       "ZZ_C07_MissingEmpty:C07.missing.done", "ZZ_C07_MissingGtp5g:C07.missing.done"]},
     "bounds": {"quick": "(a) envelope: after a valid prefix (association, a bystander session, a second session created and deleted; for the dispatched-type entries also a fresh server with nothing associated) ONE datagram of n fully symbolic octets from the associated or from an unknown peer goes through the real receive path (rcvCh -> go-pfcp message.Parse with its header, message and IE decoders -> transactions -> dispatcher -> handlers -> driver): every n in 0..12 with all 256 message types, and every n in 8..14 with the message type fixed to one of the six that go-upf dispatches (1, 5, 50, 52, 54, 57); afterwards a Heartbeat from the other peer must be answered with the right type and sequence number and the bystander must be intact unless the datagram is a Modification/Deletion carrying its SEID or an Association Setup. "
+                        "(d) missing IEs: a complete Establishment (Node ID, CP F-SEID, Create FAR with Forwarding Parameters, Create QER/URR/BAR, Create PDR with PDI incl. SDF filter), a Modification (Update/Query/Create/Remove groups) after a complete establishment, and an Association Setup, from which the solver removes every choice of up to 2 nodes of the IE tree (top-level IEs, whole groups, children, nested groups and their children: 33 / 31 / 3 nodes), both drivers. "
                         "(b) IE payload sweep through the real event loop (PfcpServer.main + receiver as coroutines, marshalled datagrams) after an association and a bystander session: for each of 39 leaf IE types that go-upf or the gtp5g driver decodes (Node ID, F-SEID, and the children of Create/Update PDR, PDI, FAR, Forwarding Parameters, QER, URR, BAR) one IE with a symbolic payload of every length 0..nominal+2 inside an otherwise well-formed Establishment and a following Modification, with the no-op driver and with the gtp5g driver on the simulated kernel; afterwards a Heartbeat must be answered and the bystander intact. SDF Filter: flow-description octets ASCII; FD length field <= payload length or >= 256",
-               "thorough": "(a) every n in 0..16 with all message types, every n in 8..18 with a dispatched type, and for n <= 14 also the same octets delivered twice (retransmission of a possibly malformed request); (b) same with the SDF Filter FD length field unconstrained (every feasible value up to the buffer capacity is a path)"},
+               "thorough": "(d) up to 3 removed nodes; (a) every n in 0..16 with all message types, every n in 8..18 with a dispatched type, and for n <= 14 also the same octets delivered twice (retransmission of a possibly malformed request); (b) same with the SDF Filter FD length field unconstrained (every feasible value up to the buffer capacity is a path)"},
     "outside": "raw datagrams longer than the stated n (up to the 1500-octet maximum), and more than one raw datagram per history; several malformed IEs in one message beyond what fits in n octets; non-ASCII flow-description text; the kernel's UDP stack (datagrams enter at rcvCh, exactly as the receiver goroutine forwards them); header-SEID addressing is decided under C04 (ZZ_C04_ModifyHeader / DeleteHeader with an unconstrained 64-bit SEID)",
     "assumptions": PFCP_ASSUME + FWD_ASSUME,
 }
